@@ -8,6 +8,7 @@ import rungen
 import scopegen
 import runobs
 import renast
+import minast
 import sexp
 import shrink
 from props import c05
@@ -333,6 +334,95 @@ def renaming_application(ctx, progs, found_by):
     ctx.stage('renaming-application:' + found_by, cases=len(meta), same_text=same, side_condition_holds=ok, with_renamed_names=renamed)
 
 
+def _debug_literal_hoisted(src, w):
+    """does a hoisted True / False sit in a `__debug__` comparison (the core gives such a test no meaning: outside T01.14)"""
+    hoisted = [c for c in minast.hoisted_consts(w) if c is True or c is False]
+    if not hoisted:
+        return False
+    for n in ast.walk(ast.parse(src)):
+        if isinstance(n, ast.Compare) and isinstance(n.left, ast.Name) and n.left.id == '__debug__':
+            if any(isinstance(c, ast.Constant) and any(c.value is h for h in hoisted) for c in n.comparators):
+                return True
+    return False
+
+
+def minify_application(ctx, progs, found_by):
+    """(C) tie for T01.13–T01.15: the real output must be the module the Lean models build — `hoistModule W (renModule R P)` for
+    rename_locals + hoist_literals alone, `hoistModule W (renModule R (transformM P))` for minify() with its defaults — from the
+    renaming and the hoisting read off the output, and both side conditions (`modOK`, `hoistOK`) must hold for them"""
+    import python_minifier
+    from python_minifier.transforms.remove_exception_brackets import builtin_exceptions as impl_list
+    reqs, meta = [], []
+    for ident, src in progs:
+        if '__future__' in src:
+            ctx.bump('out_of_model', 'future-import')
+            continue
+        for mode in ('rename+hoist', 'defaults'):
+            ctx.count()
+            try:
+                if mode == 'rename+hoist':
+                    out, _ = minify(src, ['rename_locals', 'hoist_literals'])
+                    inter = src
+                else:
+                    out, _ = minify(src, DEFAULT_ON)
+                    inter, _ = minify(src, [k for k in DEFAULT_ON if k not in ('rename_locals', 'hoist_literals')])
+                if out is None or inter is None:
+                    continue
+                w = minast.module_witness(inter, out)
+            except minast.NoWitness as e:
+                ctx.add_broken('correspondence', 'min.apply:%s:%s' % (mode, ident), 'no renaming and hoisting explains the output (%s): source=%r output=%r' % (e, src[:300], (out or '')[:300]))
+                continue
+            try:
+                ren, hw = minast.witness_sexps(w)
+                tree = ast.parse(src)
+                with pyast.unlimited():
+                    if mode == 'rename+hoist':
+                        reqs.append('min.applyast %s %s %s' % (ren, hw, pyast.enc_module(tree)))
+                    else:
+                        o = dict(c05.DEFAULTS)
+                        for k in c05.ANN_OPTS:
+                            o[k] = False               # core programs carry no annotations: the theorem is stated without their removal
+                        if any(isinstance(n, (ast.AnnAssign,)) or (isinstance(n, ast.arg) and n.annotation is not None)
+                               or (isinstance(n, ast.FunctionDef) and n.returns is not None) for n in ast.walk(tree)):
+                            ctx.bump('out_of_model', 'annotations')
+                            continue
+                        unbound, tainted = c05.unbound_names(tree)
+                        treq = c05.transform_request(tree, o, set() if tainted else (unbound & set(impl_list)))
+                        head, rest = treq.split(' ', 1)
+                        # transform <bits> <oracle> <eligible> <module>  →  min.full <bits> <oracle> <eligible> <ren> <hoist> <module>
+                        mod = pyast.enc_module(tree)
+                        assert rest.endswith(mod)
+                        reqs.append('min.full %s %s %s %s' % (rest[:-len(mod)].strip(), ren, hw, mod))
+                meta.append((ident, mode, src, out, w))
+            except pyast.OutOfModel as e:
+                ctx.bump('out_of_model', str(e))
+    answers = ctx.driver.ask(reqs) if reqs else []
+    stats = {}
+    for (ident, mode, src, out, w), ans in zip(meta, answers):
+        st = stats.setdefault(mode, dict(cases=0, same_text=0, conditions_hold=0, with_hoisting=0, debug_literal_hoisted=0))
+        st['cases'] += 1
+        if not ans.startswith('ok '):
+            ctx.add_broken('correspondence', 'min.apply:%s:%s' % (mode, ident), 'driver answered %r' % ans[:100])
+            continue
+        flag, model = sexp.dec_str(ans[3:]).split('\n', 1)
+        if minast.hoisted_consts(w):
+            st['with_hoisting'] += 1
+            ctx.mark_nontrivial('minast|%s|%s' % (mode, ident))
+        if model != out:
+            ctx.add_broken('correspondence', 'min.apply:%s:%s' % (mode, ident), 'the model pipeline prints %r, minify() prints %r (source %r)' % (model[:300], out[:300], src[:300]))
+        else:
+            st['same_text'] += 1
+        if flag == 'OK 1 1':
+            st['conditions_hold'] += 1
+        elif flag == 'OK 1 0' and _debug_literal_hoisted(src, w):
+            st['debug_literal_hoisted'] += 1
+            ctx.bump('out_of_model', 'hoisted-literal-in-debug-test')
+        else:
+            ctx.add_broken('correspondence', 'min.conditions:%s:%s' % (mode, ident), 'the renaming / hoisting minify() chose does not satisfy the side conditions of T01.13 / T01.14 (%s): %r in %r' % (flag, w, src[:400]))
+    for mode, st in stats.items():
+        ctx.stage('minify-application:%s:%s' % (mode, found_by), **st)
+
+
 def exception_table(ctx):
     """(D) the exception hierarchy table of Spec.PyCore against the running interpreter's builtins"""
     import builtins
@@ -366,6 +456,7 @@ def run(ctx):
     spec_validation(ctx, core, 'generated')
     spec_validation(ctx, core[:ctx.scale(80, 1500)], 'generated', optimized=True)      # `python -O` semantics (runO)
     renaming_application(ctx, core[:ctx.scale(100, 2000)], 'generated')
+    minify_application(ctx, core[:ctx.scale(80, 1500)], 'generated')
     c05.run_programs(ctx, core[:ctx.scale(40, 600)], core_option_sets(ctx, ctx.scale(2, 10)), 'pycore-programs')
     osets_all = option_subsets(ctx, ctx.scale(3, 24))
     differential(ctx, CORNERS, osets_all, 'corners')
